@@ -705,6 +705,55 @@ fn tight_module(rng: &mut Rng) -> Vec<u8> {
     m.finish()
 }
 
+/// a plugin-style module whose only GC roots are element segments: nothing is exported, there is no
+/// start function and no active data segment; an active segment of an imported table (its offset
+/// optionally an imported global) and/or a declared segment name the functions, which call a helper
+fn rootless_module(rng: &mut Rng) -> Vec<u8> {
+    use wasm_encoder::*;
+    let mut m = wasm_encoder::Module::new();
+    let mut t = TypeSection::new();
+    t.function([], []);
+    m.section(&t);
+    let variant = rng.below(3); // 0: active on the imported table, 1: declared only, 2: both
+    let with_global = rng.chance(1, 2);
+    let mut im = ImportSection::new();
+    im.import("env", "tbl", TableType { element_type: RefType::FUNCREF, table64: false, minimum: 4, maximum: None, shared: false });
+    if with_global {
+        im.import("env", "base", GlobalType { val_type: ValType::I32, mutable: false, shared: false });
+    }
+    m.section(&im);
+    let mut f = FunctionSection::new();
+    let nf = 3 + rng.below(2) as u32;
+    for _ in 0..nf {
+        f.function(0);
+    }
+    m.section(&f);
+    let mut el = ElementSection::new();
+    let off = if with_global { ConstExpr::global_get(0) } else { ConstExpr::i32_const(0) };
+    if variant != 1 {
+        el.active(None, &off, Elements::Functions(&[1, 2]));
+    }
+    if variant != 0 {
+        el.declared(Elements::Functions(&[1]));
+    }
+    m.section(&el);
+    let mut code = CodeSection::new();
+    for i in 0..nf {
+        let mut func = Function::new([]);
+        if i == 1 {
+            func.instruction(&Instruction::Call(0));
+        }
+        if i == 2 && variant != 0 {
+            func.instruction(&Instruction::RefFunc(1));
+            func.instruction(&Instruction::Drop);
+        }
+        func.instruction(&Instruction::End);
+        code.function(&func);
+    }
+    m.section(&code);
+    m.finish()
+}
+
 pub fn main(seed: u64, tier: &str, only: Option<&str>) {
     let mut stats = Stats::default();
     if let Some(o) = only {
@@ -766,6 +815,11 @@ pub fn main(seed: u64, tier: &str, only: Option<&str>) {
         let mut rng = Rng::new(seed ^ 0x71, case as u64);
         let wasm = tight_module(&mut rng);
         run_wasm(&format!("tight{}", case), &wasm, Edit::None, case % 2 == 0, &[], &mut stats, &mut rng);
+    }
+    for case in 0..(if tier == "thorough" { 24 } else { 6 }) {
+        let mut rng = Rng::new(seed ^ 0x72, case as u64);
+        let wasm = rootless_module(&mut rng);
+        run_wasm(&format!("rootless{}", case), &wasm, Edit::None, case % 2 == 0, &[], &mut stats, &mut rng);
     }
     out::stat("gc.cases_with_custom_section_roots", stats.with_custom_roots);
     out::stat("gc.cases", stats.cases);
